@@ -489,9 +489,18 @@ def flags_kernel(job):
 OBLIGATIONS = [
     Ob('server_reply', server_reply,
        sym=dict(ti=R(0, 23), outcome=R(0, 4), ei=R(0, 14), pktid_i=R(0, 3)),
-       shards=dict(version=[3, 6], ext=[False, True], L=[0, 4, 5], ei=[0], pktid_i=[3]),
-       thorough_shards=dict(version=[3, 4, 5, 6], ext=[False, True], L=[0, 1, 4, 5, 8], ei=[7], ti=[0, 1, 2, 3, 4, 5, 6, 7, 8, 9, 10, 11, 12, 13, 14, 15, 16, 17, 18, 19, 20, 21, 22, 23]),
-       pre=['ti <= 23 if not ext else ti <= 9'],
+       shards=dict(version=[3, 6], ext=[False], L=[0, 4, 5], ei=[0], pktid_i=[3]),
+       thorough_shards=dict(version=[3, 4, 5, 6], ext=[False], L=[0, 1, 4, 5, 8], ei=[7], ti=list(range(24))),
+       
+       timeout=200, thorough_timeout=600,
+       functions=[S.SFTPServerHandler._process_packet] + [v for k, v in S.SFTPServerHandler._packet_handlers.items()],
+       bounds='every request type in the handler table + unknown types / extended names; body = arbitrary bytes of length {0,4,5} (thorough {0,1,4,5,8}, request type sharded); '
+              'backing operation returns / raises OSError / SFTPError / NotImplementedError; versions 3 and 6 (thorough 3..6)'),
+    Ob('server_reply_ext', server_reply,
+       sym=dict(ti=R(0, 9), outcome=R(0, 4), ei=R(0, 14), pktid_i=R(0, 3)),
+       shards=dict(version=[3, 6], ext=[True], L=[0, 4, 5], ei=[0], pktid_i=[3]),
+       thorough_shards=dict(version=[3, 4, 5, 6], ext=[True], L=[0, 1, 4, 5, 8], ei=[7], ti=list(range(10))),
+       
        timeout=200, thorough_timeout=600,
        functions=[S.SFTPServerHandler._process_packet] + [v for k, v in S.SFTPServerHandler._packet_handlers.items()],
        bounds='every request type in the handler table + unknown types / extended names; body = arbitrary bytes of length {0,4,5} (thorough {0,1,4,5,8}, request type sharded); '
@@ -521,7 +530,7 @@ OBLIGATIONS = [
        bounds='all 2^32 attribute flag words per version: rejected iff a bit outside the draft-defined set for that version is set'),
 ]
 for _o in OBLIGATIONS:
-    if _o.name == 'server_reply':
+    if _o.name in ('server_reply', 'server_reply_ext'):
         _o.bytes_param = 'body'
 
 MANIFEST = dict(
